@@ -9,7 +9,65 @@ def noGunzip : Bytes → Option Bytes := fun _ => none
 
 def fuelFor (bs : Bytes) : Nat := 64 * bs.length + 4096
 
+/-- element types of hints on the line protocol: `i32 i64 u32 f64 bool str bytes`, `p<hexid>` (pointer to a
+registered struct), `f<name>` (interface) — each hint is the slice of that element type -/
+def parseElem? (s : String) : Option Ty :=
+  match s with
+  | "i32" => some .int32
+  | "u32" => some .uint32
+  | "i64" => some .int64
+  | "f64" => some .f64
+  | "bool" => some .bool
+  | "str" => some .str
+  | "bytes" => some .bytes
+  | _ =>
+    match s.toList with
+    | 'p' :: r => (hexNat? r).map Ty.ptr
+    | 'f' :: r => some (.iface (String.ofList r))
+    | _ => none
+
+def parseHints? (s : String) : Option (List Ty) :=
+  (splitComma s).mapM fun t => (parseElem? t).map Ty.vec
+
+def hintReqId : Nat := 0x5e0b700a00000041
+
+/-- `c01.hint`: the serialisation of a vector, alone / inside rpc_result / gzip_packed / both, through the
+decoder model with the hints of the operation. Decoding is a function of (bytes, hints): every one of the
+`rounds` decodings has the same answer and the arguments (hints, bytes, the value) are what they were.
+compress/gzip is not modelled: the model's `gunzip` parameter answers the serialisation of the vector for the
+packed_data of the wrapping (an empty string here). -/
+def hintLine (wrap v hints rounds : String) : String :=
+  match parse? v, parseHints? hints, rounds.toNat? with
+  | some val, some hs, some n =>
+    if n < 1 || n > 16 then "bad-op" else
+    match val with
+    | .vec _ _ =>
+      match encVal Mtv.Gen.registry val with
+      | .err _ => "enc=err"
+      | .panic _ => "enc=panic"
+      | .ok inner =>
+        let packed : Bytes := leBytes crcGzip 4 ++ [0, 0, 0, 0]
+        let rpc (b : Bytes) : Bytes := leBytes 0xf35c6d01 4 ++ (leBytes hintReqId 8 ++ b)
+        let job : Option (Bytes × (Bytes → Option Bytes)) :=
+          if wrap == "top" then some (inner, noGunzip)
+          else if wrap == "rpc" then some (rpc inner, noGunzip)
+          else if wrap == "gz" then some (packed, fun _ => some inner)
+          else if wrap == "rpcgz" then some (rpc packed, fun _ => some inner)
+          else none
+        match job with
+        | none => "bad-op"
+        | some (outer, gunzip) =>
+          let one := showOutcome (decodeUnknown Mtv.Gen.registry gunzip (fuelFor inner) hs outer)
+          let rs := (List.range n).map fun i => s!"r{i + 1}={one}"
+          s!"enc={showBytes inner} {" ".intercalate rs} hints=same data=same val=same"
+    | _ => "bad-op"
+  | _, _, _ => "bad-op"
+
 def handle : List String → String
+  | ["c01.hint", wrap, _ety, v, hints, rounds, spare] =>
+    match spare.toNat? with
+    | some k => if k ≤ 16 then hintLine wrap v hints rounds else "bad-op"
+    | none => "bad-op"
   | ["c01.rt", _id, v] =>
     match parse? v with
     | none => "bad-op"
